@@ -137,16 +137,10 @@ def attribute(g, diags):
     return failed
 
 
-def verus_layer(repo, scratch, seed, tier):
-    try:
-        g, rec, inventory = gen_verus.generate(repo, table.V)
-    except LostAnchor as e:
-        raise Undecided('lost anchor: %s (a function the contracts speak about no longer exists under that name)' % e)
-    except Unsupported as e:
-        raise Undecided('extractor: %s' % e)
-    lrows = lemma_rows(g)
-    g.rows.update(lrows)
-    path = os.path.join(scratch, 'collector.rs')
+def verus_unit(name, g, rec, scratch, seed, with_lemmas):
+    if with_lemmas:
+        g.rows.update(lemma_rows(g))
+    path = os.path.join(scratch, name + '.rs')
     open(path, 'w').write(g.text())
     cmd, summary, diags, wall, raw = run_verus(path, seed)
     failed = attribute(g, diags)
@@ -155,17 +149,41 @@ def verus_layer(repo, scratch, seed, tier):
         raise Undecided('verus: VIR error (generated file does not compile): ' + raw[-1500:])
     if not failed and not vr.get('success', False) and vr.get('errors', 0) == 0:
         raise Undecided('verus did not succeed and reported no verification error: ' + raw[-1500:])
+    if not failed and (vr.get('verified', 0) == 0):
+        raise Undecided('verus verified nothing (obligation count is zero)')
     times = {}
     for m in summary.get('times-ms', {}).get('smt', {}).get('smt-run-module-times', []):
         for f in m.get('function-breakdown', []):
             times[f['function']] = dict(ms=f['time-micros'] // 1000, rlimit=f.get('rlimit'), ok=f.get('success'))
     # vacuity guard: the `ensures false` twin of every extracted function must be REJECTED
-    vac = vacuity_twin(g, scratch, seed)
-    return dict(g=g, rec=rec, inventory=inventory, failed=failed, summary=vr, wall=wall, cmd=' '.join(cmd), times=times, vacuity=vac,
+    vac = vacuity_twin(g, scratch, seed, name)
+    return dict(g=g, rec=rec, failed=failed, summary=vr, wall=wall, cmd=' '.join(cmd), times=times, vacuity=vac,
                 smt_ms=summary.get('times-ms', {}).get('smt', {}).get('total'))
 
 
-def vacuity_twin(g, scratch, seed):
+def verus_layer(repo, scratch, seed, tier, pid):
+    units = {}
+    try:
+        g, rec, inventory = gen_verus.generate(repo, table.V)
+        units['collector'] = verus_unit('collector', g, rec, scratch, seed, True)
+        units['collector']['inventory'] = inventory
+        if pid in table.SLOTS_PROPS:
+            import gen_slots
+            g2, rec2 = gen_slots.generate(repo)
+            units['slots'] = verus_unit('slots', g2, rec2, scratch, seed, False)
+    except LostAnchor as e:
+        raise Undecided('lost anchor: %s (a function the contracts speak about no longer exists under that name)' % e)
+    except Unsupported as e:
+        raise Undecided('extractor: %s' % e)
+    # merge
+    out = dict(units=units, failed={}, rows={}, inventory=units['collector']['inventory'])
+    for u in units.values():
+        out['failed'].update(u['failed']); out['rows'].update(u['g'].rows)
+    out['cmd'] = '; '.join(u['cmd'] for u in units.values())
+    return out
+
+
+def vacuity_twin(g, scratch, seed, name='collector'):
     """For every extracted function emit a twin `<name>__vac` with the same requires and body and `ensures false`, next to the
     original (so callees keep their real contracts); every twin must be REJECTED (a contradictory requires would make it pass)."""
     lines = list(g.lines)
@@ -204,7 +222,7 @@ def vacuity_twin(g, scratch, seed):
     for (after, tw, name) in inserts:
         lines[after:after] = tw
     text = '\n'.join(lines) + '\n'
-    path = os.path.join(scratch, 'collector_vacuity.rs')
+    path = os.path.join(scratch, name + '_vacuity.rs')
     open(path, 'w').write(text)
     cmd = ['verus', path, '--rlimit', '2', '--multiple-errors', '0', '--triggers-mode', 'silent', '--error-format=json', '--output-json', '--time-expanded', '--verify-root',
            '--verify-function', '*__vac', '--num-threads', str(min(NPROC, 16))]
@@ -276,9 +294,9 @@ def main():
         failed = {}
         notes = []
         if table.uses_verus(pid):
-            v = verus_layer(repo, scratch, seed, args.tier)
+            v = verus_layer(repo, scratch, seed, args.tier, pid)
             res['verus'] = v
-            rows.update(v['g'].rows)
+            rows.update(v['rows'])
             failed.update(v['failed'])
         krows = table.kani_rows(pid, args.tier)
         if krows:
@@ -352,8 +370,9 @@ def write_evidence(pid, tier, seed, mine, myfailed, knownhits, violations, res, 
         known_findings=[k['text'] for (_, k) in knownhits],
     )
     if 'verus' in res:
-        v = res['verus']
-        cov['verus'] = dict(verified=v['summary'].get('verified'), errors=v['summary'].get('errors'), wall_s=round(v['wall'], 1), smt_ms=v.get('smt_ms'),
+        cov['verus'] = {}
+        for un, v in res['verus']['units'].items():
+            cov['verus'][un] = dict(verified=v['summary'].get('verified'), errors=v['summary'].get('errors'), wall_s=round(v['wall'], 1), smt_ms=v.get('smt_ms'),
                             vacuity_guard=v['vacuity'],
                             slowest=sorted(((f, t['ms']) for f, t in v['times'].items()), key=lambda x: -x[1])[:5],
                             functions_under_contract=sorted(k for k in v['rec'].functions if not v['rec'].functions[k].get('absent')),
